@@ -895,7 +895,7 @@ def run(ctx):
     ctx.assumptions += ["hyper labels crossing a partial-contraction cut must be given as output_inds (documented); "
                         "tag-by-tag / cumulative / inferred-output routes are exercised on networks without hyper labels"]
     ctx.check_props(["Base/Sums.vo", "Base/TN.vo", "Base/TNExec.vo", "C04/Rules.vo", "C04/Proofs.vo", "C01/Exponent.vo",
-                     "C01/Props.v", "C01/PropsExp.v"])
+                     "C13/Network.vo", "C01/Norm.vo", "C01/Props.v", "C01/PropsExp.v", "C01/PropsNorm.v"])
     ctx.stage(exponent_shapes)
     ctx.stage(correspondence)
     ctx.stage(linop_views)
